@@ -4,7 +4,7 @@
 # patch applies, test-suite pass/fail set equals baseline, demo fails with and
 # passes without.  On success copies patch.diff, demo.py, meta.json to
 # /verif/seeded/<seed-id>/ and appends what was run to meta.json.
-WT="$1"; X="$2"; ID="$3"
+WT="$1"; X="$2"; ID="$3"; EXPECT="${4:-bb4b8802}"
 S="$WT/_seed/$X"
 cd "$WT" || exit 2
 git checkout -q -- panqec
@@ -19,7 +19,7 @@ git status --short | grep -v _seed | head -3
 SUMMARY=$(grep -E "passed|failed" /tmp/confirm-$ID-tests.log | tail -1)
 FAILSET=$(grep -E "^(FAILED|ERROR)" /tmp/confirm-$ID-tests.log | sed 's/ - .*//' | sort | md5sum | cut -c1-8)
 echo "CONFIRM $ID: demo_without=$W0 demo_with=$W1 tests: $SUMMARY failset=$FAILSET"
-if [ "$W0" = 0 ] && [ "$W1" != 0 ] && [ "$FAILSET" = "bb4b8802" ]; then
+if [ "$W0" = 0 ] && [ "$W1" != 0 ] && [ "$FAILSET" = "$EXPECT" ]; then
   mkdir -p /verif/seeded/$ID
   cp "$S/patch.diff" "$S/demo.py" /verif/seeded/$ID/
   /venv/bin/python - "$S/meta.json" /verif/seeded/$ID/meta.json "$W0" "$W1" "$SUMMARY" <<'PY'
